@@ -19,7 +19,7 @@ import io
 import itertools
 
 PROP = 'C15'
-TARGETS = ['T15a', 'T15b', 'T15c', 'T15d', 'T15e', 'T15f', 'T15g', 'T15h', 'T15i', 'T15j', 'T15k']
+TARGETS = ['T15a', 'T15b', 'T15c', 'T15d', 'T15e', 'T15f', 'T15g', 'T15h', 'T15i', 'T15j', 'T15k', 'T15l']
 LEAN_MODULES = ['HdVerif.Props.C15']
 MODEL_MODULES = ['HdVerif.Model.SREvidence', 'HdVerif.Model.SRDocument', 'HdVerif.Model.SRTree']
 NAMESPACE = 'HdVerif.C15'
@@ -888,7 +888,7 @@ def _check_doc(ctx, c, reqs, pending):
                      flatten_seq(doc2.get('PertinentOtherEvidenceSequence', [])), current, other, f['record_evidence'])
     # ---- every class's from_dataset: the class that wrote the document accepts it, the other two refuse it
     for other in SR_CLASSES:
-        if other == c['cls']:
+        if other == c['cls'] or (ctx.tier == 'quick' and not ctx.search_mode and c['idx'] % 3 != 0):
             continue
         fo = _call(getattr(hd.sr, other).from_dataset, pydicom.dcmread(io.BytesIO(blob)))
         ctx.case(path='from_dataset(other class)', parse_class=f'{c["cls"]} as {other}', parse_outcome=('accepted' if fo[0] == 'ok' else fo[2].split(':')[0]))
